@@ -20,7 +20,7 @@ class Handlers:
         for (c, hs) in E.triples():
             site_body = c.body
             target = self._subscribed_to(c)
-            root = norm(site_body.root)
+            root = self.type_root(site_body)
             t = dict(site=c, handlers=hs, root=root, target=target)
             self.triples.append(t)
             for r, hb in hs.items():
@@ -28,15 +28,44 @@ class Handlers:
                     self.info[hb.id] = dict(role=r, site=c, root=root, target=target, body=hb)
 
     def _subscribed_to(self, c):
+        """what the observer registered at c is subscribed to, as an origin kind (no local names):
+        arg = an Observable parameter of the operator, self = a field of the operator struct,
+        call = the result of a call (flat_map's inner, on_error_resume_next's fallback, ..)"""
         b = c.body
-        names = set()
+        kinds = set()
         for s in b.calls:
             if atom(s) == "subscribe" and len(s.args) >= 2:
                 pv = b.operand_prov(s.args[1])
                 if any(rk == "ret" and rd == c.bb for (rk, rd, _) in pv):
                     for t in b.operand_prov(s.args[0]):
-                        names.add(b.term_name(t))
-        return "+".join(sorted(names)) if names else "?"
+                        for g in self.P.global_cell(b, t, through_helpers=True):
+                            gb = self.P.bodies[g[0]]
+                            if g[1] == "param":
+                                is_self = gb.kind == "assoc" and g[2] == 1 and (gb.locals[1].get("name") == "self")
+                                kinds.add("self" if is_self else "arg")
+                            elif g[1] == "ret":
+                                kinds.add("call")
+                            else:
+                                kinds.add("other")
+        return "+".join(sorted(kinds)) if kinds else "?"
+
+    def type_root(self, body):
+        """the item a body lexically belongs to, named by its TYPE (impl self type) or module - not by
+        the function name, so that renaming / extracting private functions does not change keys."""
+        b = body
+        seen = set()
+        while b is not None and b.id not in seen:
+            seen.add(b.id)
+            if b.kind == "assoc" and b.impl_self is not None and ty_adt(b.impl_self):
+                return norm(ty_adt(b.impl_self))
+            if b.kind == "assoc" and b.impl_self is not None:
+                return norm(b.impl_self.get("s", b.nid))
+            pk = b.raw.get("parent_kind")
+            if b.kind == "fn" and pk not in ("Closure", "Fn", "AssocFn"):
+                parts = b.nid.split("::")
+                return "::".join(parts[:-1]) + "::" + parts[-1] if len(parts) > 1 else b.nid
+            b = self.P.bodies.get(b.parent_id)
+        return norm(body.root)
 
     def key(self, hb):
         i = self.info[hb.id]
@@ -58,11 +87,7 @@ class Handlers:
                 labels.append(rs[0].split(":")[0] if rs else "closure")
             cr = self.P.created.get(b.id)
             b = cr[0] if cr else None
-        rootn = norm(body.root)
-        # local fns (do_subscribe, complete_and_next) keep their own path below the root
-        if b is not None and b.kind != "closure":
-            rootn = b.nid
-        return rootn + "".join("/" + l for l in reversed(labels))
+        return self.type_root(body) + "".join("/" + l for l in reversed(labels))
 
     def is_trigger_triple(self, t):
         """A trigger/gate observer: its next-handler ignores its payload altogether (`|_, _|`)."""
@@ -357,7 +382,7 @@ def h_complete(P, E, H, scope=None):
 # §5.9 exemption: `contains` maps error to (false, complete): pinned by the asserted test
 # contains::test::error.
 H_ERROR_EXEMPT = {
-    "operators::contains::Contains::execute",
+    "operators::contains::Contains",
 }
 
 
@@ -468,7 +493,7 @@ def r1_retry_drops_first(P, E, H):
 # --------------------------------------------------------------------------- H-role-agreement
 
 # the one place that originates an error: timeout's timer callback (TimedOut)
-ROLE_AGREEMENT_ORIGINATORS = {"operators::timeout::Timeout::execute"}
+ROLE_AGREEMENT_ORIGINATORS = {"operators::timeout::Timeout"}
 
 
 def h_role_agreement(P, E, H):
@@ -479,7 +504,7 @@ def h_role_agreement(P, E, H):
         if b.nid.startswith(SCTL + "::"):
             continue
         info, _ = H.context(b)
-        root = norm(b.root)
+        root = H.type_root(b)
         key = (root, "sink_error@" + (info["role"] if info else "?"))
         if info is None:
             r.error("sink_error outside handler context in %s" % b.nid)
